@@ -43,7 +43,7 @@ theorem mapConn_obsts (sc : Scene) (i : Nat) (f : Conn → Conn) : (mapConn sc i
 theorem pass3One_obsts (sc : Scene) (a : Action) : (pass3One sc a).obsts = sc.obsts := by
   unfold pass3One
   split
-  · have : ∀ (l : List (End × Pt)) (sc : Scene),
+  · have : ∀ (l : List (End × CEnd)) (sc : Scene),
         (l.foldl (fun sc u => mapConn sc a.id fun c => c.setEnd u.1 u.2) sc).obsts = sc.obsts := by
       intro l; induction l with
       | nil => intro sc; rfl
